@@ -44,6 +44,11 @@ def make_tail(rng, kind):
     if kind == "utf8":
         return "".join(rng.choice("aé€日本𝄞 Zß\n")
                        for _ in range(rng.randint(1, 100))).encode()
+    if kind == "utf8-cut":
+        # valid UTF-8 that ends in the middle of a multi-byte character
+        t = "".join(rng.choice("aé€日本𝄞 Z\n")
+                    for _ in range(rng.randint(1, 60))).encode()
+        return t + rng.choice(["é", "€", "𝄞"]).encode()[:-1]
     if kind == "nul":
         return b"\0" * rng.randint(1, 400)
     if kind == "long-run":
@@ -58,7 +63,7 @@ def make_tail(rng, kind):
     raise ValueError(kind)
 
 
-TAILS = ["none", "binary", "high", "utf8", "nul", "pvl-like",
+TAILS = ["none", "binary", "high", "utf8", "utf8-cut", "nul", "pvl-like",
          "pvl-like-broken", "long-run", "long-run-utf8"]
 
 
@@ -355,7 +360,9 @@ class C09(Property):
     def _run(self, rng, index, tier, out):
         cfg = rng.choice(["default"] * 7 + ["PVL", "ODL", "PDS3"])
         gcfg = cfg
-        stmts = gen.DocGen(rng, max_stmts=rng.choice([1, 2, 4, 6])).document()
+        stmts = gen.DocGen(rng, max_stmts=rng.choice([1, 2, 4, 6]),
+                           extended=(cfg == "default" and
+                                     rng.random() < 0.3)).document()
         nonascii = rng.random() < 0.2
         style = gen.Style(rng, gcfg)
         style.end_present = True
@@ -380,7 +387,7 @@ class C09(Property):
         label = body[:toks[endi[0]].end] if endi else body
         tail_kind = rng.choice(TAILS)
         if tail_kind.startswith("long-run") and rng.random() < 0.6:
-            tail_kind = rng.choice(TAILS[:7])
+            tail_kind = rng.choice(TAILS[:8])
         tail = make_tail(rng, tail_kind)
         seps = ["\n", "\r\n", " ", "\t", ";"] + (
             ["\0"] if cfg == "default" else [])
@@ -388,6 +395,15 @@ class C09(Property):
         if not tail and not sep:
             pass
         label = label + sep
+        # the premise of "nothing after END matters" is an END statement:
+        # if the label, as lexed, never delivers one (an unterminated
+        # comment or quote in a damaged or extended-vocabulary label
+        # swallows it), nothing may follow the label
+        st0 = chan.ChanStats()
+        ref0 = dialects.load(cfg, label, chan.make_lexer_fn([], st0))
+        if not st0.end_seen:
+            tail = b""
+            tail_kind = "none"
         data = label.encode() + tail
         try:
             tail.decode()
